@@ -1,6 +1,6 @@
 (** C06 — Decode->encode->decode is a fixpoint for DHCPv4 and DHCPv6. *)
 From DV Require Import Base.Bytes Label.Model Label.RoundTrip V4.Model V4.OptProofs V4.Proofs V4.RoundTrip V4.Canon V4.Fixpoint
-                       V6.Model V6.Wf V6.RoundTrip V6.Fixpoint V6.F12Witness.
+                       V6.Model V6.Wf V6.RoundTrip V6.Fixpoint V6.F12Witness V4.Length.
 
 (** DHCPv4: for EVERY byte string the decoder accepts, encoding the decoded
     packet succeeds, the bytes decode to an equal packet (the only change:
@@ -43,10 +43,12 @@ Theorem C06_fixpoint_v6 : forall (b : bytes) (m : msg6), dec_msg b = Ok m -> sho
 Proof. exact fixpoint6. Qed.
 Print Assumptions C06_fixpoint_v6.
 
-(** The side condition holds for every accepted message that embeds no
-    DHCPv4 message: re-encoding never grows (duplicate requested-option
-    codes are dropped, everything else keeps its length), so the fixpoint is
-    unconditional there. *)
+(** The side condition holds for every accepted message in which no embedded
+    DHCPv4 message gets padded ([no_v4_msg]: every DHCPv4 message embedded at
+    any depth re-encodes to MORE than the 300-octet BOOTP floor - in particular
+    when there is none): re-encoding never grows (duplicate requested-option
+    codes are dropped, DHCPv4 instances are merged, everything else keeps its
+    length), so the fixpoint is unconditional there. *)
 Theorem C06_fixpoint_v6_no_embedded_v4 : forall (b : bytes) (m : msg6), dec_msg b = Ok m -> no_v4_msg m ->
   exists m2, dec_msg (enc_msg m) = Ok m2 /\ enc_msg m2 = enc_msg m /\ m2 = canon_msg m.
 Proof. exact fixpoint6_no_v4. Qed.
@@ -56,6 +58,12 @@ Theorem C06_reencoding_no_longer_v6 : forall (b : bytes) (m : msg6), dec_msg b =
   length (enc_msg m) <= length b.
 Proof. exact reencode_no_longer. Qed.
 Print Assumptions C06_reencoding_no_longer_v6.
+
+(** a decoded DHCPv4 packet re-encodes to at most max(300, received length) octets: the padding to the BOOTP
+    minimum is the only way re-encoding can grow *)
+Theorem C06_reencoding_length_v4 : forall b p, dec4 b = Ok p -> length (enc4_bytes p) <= Nat.max 300 (length b).
+Proof. exact dec4_reencode_length. Qed.
+Print Assumptions C06_reencoding_length_v4.
 
 (** the decoder's image lies in the encoder's domain (C02's [wf_msg]) *)
 Theorem C06_decoded_in_domain_v6 : forall (b : bytes) (m : msg6), dec_msg b = Ok m -> shorts_msg m -> wf_msg m.
